@@ -897,6 +897,7 @@ class PauliStringCollection:
         """
         index = self.find(pauli_string)
         if index != -1:
+            self.classification = None
             self.generators[index] = new_pauli_string.copy()
 
     def contract(self, pauli_string: PauliString, contracted_pauli_string: PauliString) -> None:
